@@ -147,7 +147,13 @@ pub fn eval_c09(c: &C09Case) -> CaseResult {
             "defect-present-but-unreachable" | "cross-project" | "shared-revisit" | "cycle" | "unknown-project" | "output-of-non-build"
         )
     });
-    res.fingerprint = format!("{:?}|n={}", classes, ps.projects.len());
+    // distinct = class set x #projects x closure size x #requested x kinds of references involved
+    let shape = match &reference {
+        Ok(clo) => format!("clo{}", clo.len().min(9)),
+        Err(e) => e.split(' ').take(2).collect::<Vec<_>>().join("-"),
+    };
+    let refs: usize = ps.projects.iter().map(|p| p.targets.iter().map(|t| t.deps.len() + 2 * t.outs.len()).sum::<usize>()).sum();
+    res.fingerprint = format!("{:?}|n={}|{}|req{}|refs{}", classes, ps.projects.len(), shape, c.req.len(), refs.min(12));
     res.classes = classes;
 
     let root = sb.path("proj");
